@@ -54,7 +54,7 @@ Proof. intros L F. eapply Forall_impl; [|exact F]. cbn. intros; lia. Qed.
 
 Lemma ow_step_inv w e : owinv w -> owinv (ow_step w e).
 Proof.
-  intros [LS LB IF VV]. destruct e as [op|ok]; cbn [ow_step].
+  intros [LS LB IF VV]. destruct e as [op|ok rt]; cbn [ow_step].
   - destruct (q_infl w) as [[s o]|] eqn:EI.
     + destruct IF as (E & C & NX). constructor; cbn [q_log q_serving q_infl q_queue q_next q_val]; auto.
       split; auto. split; [apply consec_snoc; auto; lia|]. rewrite app_length. cbn [length]. lia.
@@ -65,7 +65,8 @@ Proof.
       * eapply Forall_lt_mono; eauto.
       * destruct infl as [[s o]|]; cbn [length] in AD; [destruct AD as (A & B & D)|destruct AD as (A & B)];
           repeat split; auto; lia.
-  - destruct (q_infl w) as [[s o]|] eqn:EI; [|constructor; auto; rewrite EI; auto].
+  - destruct (negb ok && rt); [constructor; auto|].
+    destruct (q_infl w) as [[s o]|] eqn:EI; [|constructor; auto; rewrite EI; auto].
     destruct IF as (E & C & NX). subst s.
     destruct (advance (q_delseq w) (q_serving w + 1) (q_queue w) (q_res w ++ [(q_serving w, ok)]))
       as [[[sv q] infl] res] eqn:AD.
